@@ -16,6 +16,7 @@ import (
 	"net/http/httptest"
 	"net/netip"
 	"os"
+	"os/exec"
 	"path/filepath"
 	"strings"
 	"sync"
@@ -37,6 +38,7 @@ type kcase struct {
 	Reply string   `json:"reply,omitempty"`
 	Body  string   `json:"body,omitempty"`
 	Evs   []tevent `json:"evs,omitempty"`
+	Proto string   `json:"proto,omitempty"` // timing: http (default) or udp
 	Obs   string   `json:"obs,omitempty"`
 }
 
@@ -256,16 +258,57 @@ func runHTTP(c *kcase) string {
 
 const startTime = int64(1000000000000000000)
 
+// udpTrackerServer answers every connect and announce honestly (interval 1800 s, no
+// peers) and counts announces.
+func udpTrackerServer(hits *int32) (net.PacketConn, string) {
+	pc, err := net.ListenPacket("udp4", "127.0.0.1:0")
+	if err != nil {
+		panic(err)
+	}
+	go func() {
+		buf := make([]byte, 4096)
+		for {
+			n, addr, err := pc.ReadFrom(buf)
+			if err != nil {
+				return
+			}
+			if n < 16 {
+				continue
+			}
+			if binary.BigEndian.Uint32(buf[8:12]) == 0 {
+				out := make([]byte, 16)
+				copy(out[4:8], buf[12:16])
+				pc.WriteTo(out, addr)
+			} else {
+				atomic.AddInt32(hits, 1)
+				out := make([]byte, 20)
+				binary.BigEndian.PutUint32(out[0:], 1)
+				copy(out[4:8], buf[12:16])
+				binary.BigEndian.PutUint32(out[8:], 1800)
+				pc.WriteTo(out, addr)
+			}
+		}
+	}()
+	return pc, "udp://" + pc.LocalAddr().String()
+}
+
 func runTiming(c *kcase) string {
 	var body atomic.Value
 	body.Store([]byte("de"))
 	var hits int32
-	srv := httptest.NewServer(http.HandlerFunc(func(w http.ResponseWriter, r *http.Request) {
-		atomic.AddInt32(&hits, 1)
-		w.Write(body.Load().([]byte))
-	}))
-	defer srv.Close()
-	tr := tracker.New(srv.URL + "/announce")
+	var tr tracker.Tracker
+	if c.Proto == "udp" {
+		pc, url := udpTrackerServer(&hits)
+		defer pc.Close()
+		tr = tracker.New(url)
+	} else {
+		srv := httptest.NewServer(http.HandlerFunc(func(w http.ResponseWriter, r *http.Request) {
+			atomic.AddInt32(&hits, 1)
+			w.Write(body.Load().([]byte))
+		}))
+		defer srv.Close()
+		tr = tracker.New(srv.URL + "/announce")
+	}
 	t0 := time.Now()
 	aged := int64(0)
 	clock := func() int64 { return startTime + aged + int64(time.Since(t0)) }
@@ -283,6 +326,9 @@ func runTiming(c *kcase) string {
 			name := map[tracker.State]string{tracker.Busy: "TBusy", tracker.Ready: "TReady", tracker.Error: "TError", tracker.Idle: "TIdle"}[st]
 			evs = append(evs, fmt.Sprintf("(TState (%d)%%Z %s)", now, name))
 		case "announce":
+			if c.Proto == "udp" {
+				e.Body = cq.EncodeRuns([]byte("d8:intervali1800ee")) // what the UDP server's reply amounts to
+			}
 			body.Store(cq.DecodeRuns(e.Body))
 			h0 := atomic.LoadInt32(&hits)
 			now := clock()
@@ -433,6 +479,9 @@ func gen(r *rand.Rand, n int) []*kcase {
 			add(&kcase{Kind: "http", Body: cq.EncodeRuns(genHTTPBody(r))})
 		case 3:
 			c := &kcase{Kind: "timing"}
+			if r.Intn(3) == 0 {
+				c.Proto = "udp"
+			}
 			for k := 3 + r.Intn(8); k > 0; k-- {
 				switch r.Intn(5) {
 				case 0:
@@ -459,12 +508,38 @@ func run(c *kcase) string {
 	case "http":
 		k = runHTTP(c)
 	case "timing":
-		k = runTiming(c)
+		// Announce panics inside its own goroutines cannot be recovered: run the case
+		// in a child process and report a dead child as a failed case
+		b, _ := json.Marshal(c)
+		cmd := exec.Command(os.Args[0], "timing1", string(b))
+		out, err := cmd.Output()
+		if err != nil || !bytes.HasPrefix(out, []byte("(KTiming")) {
+			c.Obs = "process died (panic in Announce)"
+			k = "(KTiming [] true)"
+		} else {
+			var res struct {
+				Term string
+				Obs  string
+			}
+			parts := bytes.SplitN(out, []byte("\n#OBS "), 2)
+			res.Term = string(parts[0])
+			if len(parts) > 1 {
+				res.Obs = strings.TrimSpace(string(parts[1]))
+			}
+			k, c.Obs = res.Term, res.Obs
+		}
 	}
 	return fmt.Sprintf("{| k_id := %d; k_case := %s |}", c.ID, k)
 }
 
 func main() {
+	if len(os.Args) == 3 && os.Args[1] == "timing1" {
+		var c kcase
+		json.Unmarshal([]byte(os.Args[2]), &c)
+		t := runTiming(&c)
+		fmt.Printf("%s\n#OBS %s\n", t, c.Obs)
+		return
+	}
 	fs := flag.NewFlagSet("tracker", flag.ExitOnError)
 	fs.String("prop", "C15", "property")
 	out := fs.String("out", "", "output directory")
